@@ -3,6 +3,7 @@ package rules
 import (
 	"fmt"
 	"go/constant"
+	"go/token"
 	"go/types"
 	"strings"
 
@@ -16,7 +17,8 @@ import (
 func init() {
 	register(&RuleSet{
 		ID: "C13",
-		Explanation: "R1 (ESP): every ChangeOps.WriteOrCreateFiles call whose file contents are a marshalled VMLaunchEndorsement is reachable only in states where an existence probe of the workspace (a function of package endorse returning (bool, error) that invokes ChangeOps.ReadFile) returned false or output.AllowOverwrite returned true. " +
+		Explanation: "R9 wherever package endorse compares two strings that both derive from a manifest entry's Digest, either both went through hex.EncodeToString or neither did (a key in one representation never equals a key in the other, so the comparison silently never matches and stale entries stay in the manifest); parameters are followed to the arguments of their call sites. " +
+			"R1 (ESP): every ChangeOps.WriteOrCreateFiles call whose file contents are a marshalled VMLaunchEndorsement is reachable only in states where an existence probe of the workspace (a function of package endorse returning (bool, error) that invokes ChangeOps.ReadFile) returned false or output.AllowOverwrite returned true. " +
 			"R2 (slice): where a VMEndorsementMap_Entry is built, Path and the written file path share one basename origin (the gate's result) and Digest derives from sha512.Sum384 of Context.Image. " +
 			"R3 (ESP): the manifest write (file path derived from endorse.ManifestFile) happens only after an endorsement write succeeded; the marshalled map is the object the manifest was parsed into. " +
 			"R4 (CFG): in the function that merges the new entry into the manifest list, no call that drops entries keyed by the new entry's digest or path is reachable after that digest/path was placed in the list (the fresh entry would be dropped with the stale one). " +
@@ -32,6 +34,7 @@ func init() {
 }
 
 func runC13(c *Ctx) {
+	c13DigestKeysAgree(c)
 	// R6 = C14.R6/R6b: the manifest that is extended and written back is the one read from this attempt's workspace
 	// into an object allocated during the attempt (a stale view drops entries committed in between).
 	c.borrow("R6/C14.", runC14, func(rule, _ string) bool { return rule == "R6" || rule == "R6b" })
@@ -1028,4 +1031,72 @@ func (c *Ctx) extConstInt(pkg, name string) (int64, bool) {
 		return 0, false
 	}
 	return constant.Int64Val(constant.ToInt(v))
+}
+
+// c13DigestKeysAgree is R9: the manifest merge identifies entries by digest through string keys. A comparison of two
+// such keys is meaningful only when both are in one representation: the hex text of the digest, or its raw bytes.
+// For every string ==/!= in package endorse whose two operands both derive from a VMEndorsementMap_Entry.Digest (the
+// operands of helpers are followed to the call sites' arguments), the rule requires the same answer on both sides to
+// "did this pass through hex.EncodeToString".
+func c13DigestKeysAgree(c *Ctx) {
+	sl := flow.NewSlicer(c.P)
+	sl.LiftParams = 2
+	isHex := func(v ssa.Value) bool {
+		call, ok := v.(*ssa.Call)
+		return ok && calleeIs(call, "encoding/hex.EncodeToString")
+	}
+	relPkg := repoPath("proto/releases")
+	isDigest := func(v ssa.Value) bool {
+		if fa, ok := v.(*ssa.FieldAddr); ok {
+			return flow.IsFieldLoad(fa, relPkg, "VMEndorsementMap_Entry", "Digest")
+		}
+		if flow.IsFieldLoad(v, relPkg, "VMEndorsementMap_Entry", "Digest") {
+			return true
+		}
+		if call, ok := v.(*ssa.Call); ok {
+			if g := call.Call.StaticCallee(); g != nil && g.Name() == "GetDigest" && len(call.Call.Args) == 1 && namedIs(call.Call.Args[0].Type(), relPkg, "VMEndorsementMap_Entry") {
+				return true
+			}
+		}
+		return false
+	}
+	n := 0
+	for _, f := range c.P.RepoFunctions() {
+		if load.RelPkg(f) != "endorse" || c.isTestFunc(f) || f.Blocks == nil {
+			continue
+		}
+		k := 0
+		for _, b := range f.Blocks {
+			for _, in := range b.Instrs {
+				var x, y ssa.Value
+				switch v := in.(type) {
+				case *ssa.BinOp:
+					if v.Op != token.EQL && v.Op != token.NEQ {
+						continue
+					}
+					if bt, ok := v.X.Type().Underlying().(*types.Basic); !ok || bt.Info()&types.IsString == 0 {
+						continue
+					}
+					x, y = v.X, v.Y
+				case *ssa.Call:
+					// the same comparison on bytes
+					if !calleeIs(v, "bytes.Equal") || len(v.Call.Args) != 2 {
+						continue
+					}
+					x, y = v.Call.Args[0], v.Call.Args[1]
+				default:
+					continue
+				}
+				if !sl.Derives(x, isDigest) || !sl.Derives(y, isDigest) {
+					continue
+				}
+				n++
+				k++
+				hx, hy := sl.Derives(x, isHex), sl.Derives(y, isHex)
+				c.S.Check(hx == hy, "R9", fmt.Sprintf("%s:digest comparison #%d", load.FuncName(f), k), c.pos(in.Pos()), "both digest keys are in one representation",
+					"two digest keys are compared of which one is the hex text of a digest and the other its raw bytes: they never match, so the entry the comparison looks for is never found (a stale digest stays in the manifest, or a duplicate is added)")
+			}
+		}
+	}
+	c.S.Floor("R9", "comparisons of two digest keys in package endorse", 1, n)
 }
